@@ -73,7 +73,9 @@ where
             }
         };
 
-        headers.append(header, HeaderValue::from_bytes(value).map_err(http::Error::from)?);
+        let value = HeaderValue::from_bytes(value).map_err(http::Error::from)?;
+        // The header map has a capacity limit of its own; `append` panics when it is exceeded.
+        headers.try_append(header, value).map_err(http::Error::from)?;
     }
 
     Ok((status, headers))
